@@ -176,8 +176,27 @@ func drawHealth(n int, rng *rand.Rand) Spec {
 		}
 		return p
 	}
+	// cascade cases: more than 20% of the pool is unhealthy, but some of the unhealthy nodes are already terminating (a
+	// previous repair wave) - just enough of them that the REMAINING unhealthy nodes would be within 20% of the REMAINING
+	// nodes. All of them are nodes of the pool and all of them are unhealthy: repair must stay blocked.
+	cascade := !overlap && n%5 == 2 && !standalone
+	terminating := 0
+	if cascade {
+		N = 6 + rng.Intn(7)
+		allowed = (N + 4) / 5
+		U = allowed + 1 + rng.Intn(2)
+		if U > N {
+			U = N
+		}
+		for terminating < U-1 && U-terminating > (N-terminating+4)/5 {
+			terminating++
+		}
+	}
 	for i := 0; i < N; i++ {
 		c := ClaimSpec{Pool: 0, Stage: stInitialized, StepBeforeMs: rng.Intn(5000), NoiseCond: rng.Intn(4) == 0}
+		if cascade && i >= 1 && i <= terminating {
+			c.NodeTerminating = true
+		}
 		if standalone {
 			c.Pool = -1
 		}
